@@ -256,6 +256,10 @@ func (m *Machine) deadlock() {
 
 // chooseG wraps choose so that scheduler decisions are recorded in the schedule trace.
 func (m *Machine) chooseG(en []*G) int {
+	if m.schedFixed {
+		m.sched = append(m.sched, en[0].id)
+		return 0
+	}
 	k := m.choose(len(en))
 	m.sched = append(m.sched, en[k].id)
 	return k
@@ -306,7 +310,7 @@ func (m *Machine) yield(fr *frame) {
 	if len(en) <= 1 {
 		return
 	}
-	if m.opts.MaxPreempt >= 0 && m.preempts >= m.opts.MaxPreempt {
+	if m.schedFixed || (m.opts.MaxPreempt >= 0 && m.preempts >= m.opts.MaxPreempt) {
 		return
 	}
 	k := m.chooseG(en)
